@@ -97,6 +97,19 @@ def s4(rng):
     return "DdtGaussian", cfg, h, False
 
 
+@scen("lambda_ifu/IFU flag written as numpy.bool_ / 1 (invariant only)")
+def s34(rng):
+    # a flag read from a boolean table column: whichever way the library reads it, "one evaluation" must go together with
+    # "no randomness" and "N evaluations" with the mean over N draws
+    cfg, h = base_cfg(rng, "DdtGaussian")
+    cfg.update(lambda_mst_distribution="GAUSSIAN", mst_ifu=True, _ifu_flag_as=rng.choice(["numpy_bool", "int"]))
+    if rng.random() < 0.5:
+        h["kwargs_lens"].update(lambda_mst_sigma=0.0, lambda_ifu=0.95, lambda_ifu_sigma=0.06)
+    else:
+        h["kwargs_lens"].update(lambda_mst_sigma=0.06, lambda_ifu=0.95, lambda_ifu_sigma=0.0)
+    return "DdtGaussian", cfg, h, None
+
+
 @scen("lambda_mst/distribution NONE")
 def s5(rng):
     cfg, h = base_cfg(rng, "DdtGaussian")
@@ -464,6 +477,23 @@ def oracle(case, runs):
     n = case["cfg"]["num_distribution_draws"]
     if "err" in o1 or "err" in o2:
         return ["raised %s" % (o1.get("err") or o2.get("err"))]
+    if case["applicable"] is None:
+        # no expectation about WHICH branch is taken; the two branches themselves must be what they claim to be
+        if len(r1.data) == 1 and o1["value"] != o2["value"]:
+            fails.append("one evaluation (treated as sharp) but the value depends on the random state: %r vs %r — a single noisy draw"
+                         % (o1["value"], o2["value"]))
+        elif len(r1.data) not in (1, n):
+            fails.append("%d data-likelihood evaluations: neither 1 nor N=%d" % (len(r1.data), n))
+        elif len(r1.data) == n and n > 1:
+            fin = [l for l in r1.singles if math.isfinite(l)]
+            if fin:
+                mx = max(fin)
+                want = mx + math.log(sum(math.exp(l - mx) for l in fin) / n)
+                if not close(o1["value"], want, 1e-10):
+                    fails.append("value %r is not log(mean(exp l_i)) = %r" % (o1["value"], want))
+            if len(set(r1.singles)) == 1 and len(r2.singles) == n and r1.singles[0] == r2.singles[0]:
+                fails.append("N=%d evaluations of a deterministic value (no applicable scatter, yet marginalised)" % n)
+        return fails
     if case["applicable"]:
         if len(r1.data) != n:
             fails.append("applicable scatter non-zero but %d data-likelihood evaluations instead of N=%d" % (len(r1.data), n))
@@ -534,8 +564,9 @@ def run(ctx, res):
         meta.append(("hyper", case, o1, r1))
         # the model's declared populations (theorem draws_from_declared) vs. the harness' statement of them and vs.
         # every request the implementation made
-        lines.append({"op": "Lens.declared", "cfg": lc.encode_cfg(lens, case["ltype"], case["cfg"]), "hyper": lc.encode_hyper(case["hyper"])})
-        meta.append(("declared", case, o1, r1))
+        if "_ifu_flag_as" not in case["cfg"]:     # (no independent statement of WHICH population applies for a flag that is not the bool True)
+            lines.append({"op": "Lens.declared", "cfg": lc.encode_cfg(lens, case["ltype"], case["cfg"]), "hyper": lc.encode_hyper(case["hyper"])})
+            meta.append(("declared", case, o1, r1))
         # first single evaluation: requests (loc, scale) and routed arguments under scatter
         for si, (n0, n1, g0, g1, k0, d0) in enumerate(r1.spans[:ctx.n(3, 12)]):
             lines.append({"op": "Lens.single", "cfg": lc.encode_cfg(lens, case["ltype"], case["cfg"]), "hyper": lc.encode_hyper(case["hyper"]),
